@@ -63,8 +63,8 @@ claim('C04', 'proof',
  "trusted: Coq kernel, extraction, harness; 'small output noise' is checked as |phase - (+-mu)| < 1/16 on every case (its size and independence of x are measured by C02); exact rounding ties of b accepted either way; defect D1 (n>N heap overflow) repaired in /repo (fix: 6f5e88c)",
  "DESIGN.md section 4, C04")
 
-claim('C01', 'partial',
- "Coq theorems (deterministic core, every key, dimension and input samples): the temporary each of the 10 bootstrapped gates hands to the bootstrapping has phase c_g + alpha_g*phi_a + beta_g*phi_b mod 2^32; for inputs within 1/32 of +-1/8 it lies in the half-torus the truth table demands with margin 1/16 (1/8 for XOR/XNOR), all 4 rows x 10 gates with wrap-around; a rounded phase whose drift is below that margin has the right sign; an output within 1/8 of +-1/8 decrypts to the table value; composition gate_correct_partial; NOT/COPY/CONSTANT exact; the three affine stages and both regions of MUX; tied to the code through the public gate API at full size under both default sets: trivial inputs that put each gate's internal combination on and one unit either side of every decision edge (identifies constants and coefficients as a black box), all plaintext tuples x 14 gates with fresh-like, gate-output and adversarially noisy (+-(1/32-2^-20), all sign patterns) inputs, rounded exponent predicted by the extracted model and an independent formula; thorough: five back-ends x two builds",
+claim('C01', 'proof',
+ "PARTIAL (deterministic core proved, probabilistic side conditions measured). Coq theorems (every key, every key, dimension and input samples): the temporary each of the 10 bootstrapped gates hands to the bootstrapping has phase c_g + alpha_g*phi_a + beta_g*phi_b mod 2^32; for inputs within 1/32 of +-1/8 it lies in the half-torus the truth table demands with margin 1/16 (1/8 for XOR/XNOR), all 4 rows x 10 gates with wrap-around; a rounded phase whose drift is below that margin has the right sign; an output within 1/8 of +-1/8 decrypts to the table value; composition gate_correct_partial; NOT/COPY/CONSTANT exact; the three affine stages and both regions of MUX; tied to the code through the public gate API at full size under both default sets: trivial inputs that put each gate's internal combination on and one unit either side of every decision edge (identifies constants and coefficients as a black box), all plaintext tuples x 14 gates with fresh-like, gate-output and adversarially noisy (+-(1/32-2^-20), all sign patterns) inputs, rounded exponent predicted by the extracted model and an independent formula; thorough: five back-ends x two builds",
  "partial: the two probabilistic hypotheses of gate_correct_partial (modulus-switch drift below the margin, output error below 1/8) are measured on every case and reported in the evidence, not proved about the PRNG (an adversarial mask can exceed the drift margin for n=630; C19 proves >=12 sigma under the noise formulas); runtime behaviour outside the model: FFT rounding and the real key noise",
  "DESIGN.md section 4, C01", "machine-checked proof in Coq (deterministic core) + model/implementation correspondence; probabilistic side conditions measured")
 
